@@ -14,16 +14,36 @@ package core
 //@   flags pure
 //@   ensures result == c.fd
 
+// The unread byte stream of a connection: what is left over from earlier reads (inbound ring) followed by the bytes
+// of the current read (c.buffer). slen / sat are its length and k-th byte.
+//@ define inb(c) = ref(elastic.RingBuffer, c.inboundBuffer)
+//@ define slen(c) = elastic.elen(c.inboundBuffer) + len(c.buffer)
+//@ define sat(c, k) = ite(k < elastic.elen(c.inboundBuffer), elastic.eat(c.inboundBuffer, k), c.buffer[k - elastic.elen(c.inboundBuffer)])
+//@ define swf(c) = elastic.ewf(c.inboundBuffer) && c.loop != nil
+
+//@ func conn.resetBuffer
+//@   props C08
+//@   modifies c.buffer, ring.Buffer.r, ring.Buffer.w, ring.Buffer.isEmpty
+//@   requires swf(c)
+//@   ensures swf(c) && slen(c) == 0
+
 //@ func conn.Peek
-//@   flags trusted
-//@   modifies nothing
-//@   ensures n <= 0 ==> err == nil
-//@   ensures forall g *Frag :: g.RspBody.base != buf.base && g.Req.base != buf.base
-//@   ensures forall m *Msg :: m.RspBody.base != buf.base
+//@   props C08 C12
+//@   modifies bytes.Buffer.glen, bytes.Buffer.gdata
+//@   requires swf(c)
+//@   ensures[short@C08] n > slen(c) ==> buf == nil
+//@   ensures[len@C08] n <= slen(c) ==> (err == nil && len(buf) == ite(n <= 0, slen(c), n))
+//@   ensures[data@C08] n <= slen(c) ==> (forall k int :: (0 <= k && k < len(buf)) ==> buf[k] == sat(c, k))
 
 //@ func conn.Discard
-//@   flags trusted
-//@   modifies conn.buffer, ring.Buffer.r, ring.Buffer.w, ring.Buffer.isEmpty, elastic.RingBuffer.rb
+//@   props C08 C12
+//@   modifies c.buffer, ring.Buffer.r, ring.Buffer.w, ring.Buffer.isEmpty, elastic.RingBuffer.rb
+//@   requires swf(c)
+//@   ensures[wf] swf(c)
+//@   ensures[all@C08] (n <= 0 || n > old(slen(c))) ==> (slen(c) == 0 && result0 == old(slen(c)))
+//@   ensures[some.len@C08] (0 < n && n <= old(slen(c))) ==> (slen(c) == old(slen(c)) - n && result0 == n)
+//@   ensures[some.data@C08] (0 < n && n <= old(slen(c))) ==> (forall k int :: (0 <= k && k < slen(c)) ==> sat(c, k) == old(sat(c, k + n)))
+//@   ensures[err] result1 == nil
 
 //@ func msgPool.Get
 //@   flags trusted
